@@ -486,14 +486,58 @@ def make_atom(head: str, *args) -> Rat:
         return mk_reduce(head, *args)
     if head == 'gamma' and isinstance(args[1], Rat) and args[1] == args[2]:
         return args[1]
-    if head == 'Int' and len(args) == 1 and isinstance(args[0], Rat) and args[0].is_const():
-        import math
-        return C(math.trunc(args[0].const_value()))       # int() of a known number
+    if head == 'Int' and len(args) == 1 and isinstance(args[0], Rat):
+        return mk_int(args[0])
     if head == 'el':
         base, idx = args
         if hasattr(base, 'element'):
             return base.element(idx)
     return A(head, *args)
+
+
+def is_integral(r: Rat) -> bool:
+    """conservative: `r` is a polynomial with integer coefficients over integer-valued atoms"""
+    if r.d.t != {(): 1} or any(Fraction(c).denominator != 1 for c in r.n.t.values()):
+        return False
+    for a in r.atoms():
+        h, args = ATOMS.head(a), ATOMS.args(a)
+        if h in ('Int', 'Len', 'cle', 'clt'):
+            continue
+        if h in ('FloorDiv', 'Mod', 'max2', 'min2') and all(isinstance(x, Rat) and is_integral(x) for x in args):
+            continue
+        return False
+    return True
+
+
+def is_nonneg(r: Rat) -> bool:
+    """conservative: `r` is a polynomial with non-negative coefficients over non-negative atoms"""
+    if r.d.t != {(): 1} or any(c < 0 for c in r.n.t.values()):
+        return False
+    for a in r.atoms():
+        h, args = ATOMS.head(a), ATOMS.args(a)
+        if h in ('Len', 'Abs', 'cle', 'clt'):
+            continue
+        if h == 'max2' and any(isinstance(x, Rat) and is_nonneg(x) for x in args):
+            continue
+        if h == 'min2' and all(isinstance(x, Rat) and is_nonneg(x) for x in args):
+            continue
+        if h == 'FloorDiv' and isinstance(args[0], Rat) and is_nonneg(args[0]) and isinstance(args[1], Rat) and args[1].is_const() and args[1].const_value() > 0:
+            continue
+        return False
+    return True
+
+
+def mk_int(r: Rat) -> Rat:
+    """int(r): folds for a known number; int(m * p / k) of a non-negative integer p is the floor division (m * p) // k"""
+    if r.is_const():
+        import math
+        return C(math.trunc(r.const_value()))
+    c, p = split_content(r)
+    if c > 0 and is_integral(p) and is_nonneg(p):
+        if c.denominator == 1:
+            return r
+        return A('FloorDiv', C(c.numerator) * p, C(c.denominator))
+    return A('Int', r)
 
 
 POSITIVE: List[Rat] = []     # expressions declared positive by a rule (listed in evidence)
